@@ -187,15 +187,27 @@ type schedT struct {
 	deadlock bool
 }
 
-// held: is the Once body occupied by a goroutine that is parked (under our control) or itself stably blocked?
+// held: is the Once body occupied by a goroutine that cannot leave it on its own? That is a goroutine
+// parked at a yield point inside the body (state P: all its Once frames are bodies it is inside), or a
+// goroutine that is right now blocked on an inner Once (its outer Once frames are bodies it is inside).
+// A goroutine we have on the books as blocked but which is no longer waiting — it was just woken, holds
+// the Once's mutex for an instant and will return without entering the body — is NOT a holder (mistaking
+// it for one made a woken request look stably blocked: one false deadlock in 65 000 -race cases).
 func (s *schedT) held(dump map[int64]ginfo, once string) bool {
 	for _, a := range s.actors {
 		if a.state != "P" && a.state != "B" {
 			continue
 		}
 		w, wt := onceFrames(dump[a.gid])
-		for i := range w {
-			if w[i] == once && !wt[i] {
+		first := 0
+		if a.state == "B" {
+			if len(w) == 0 || !wt[0] {
+				continue // in transit
+			}
+			first = 1
+		}
+		for i := first; i < len(w); i++ {
+			if w[i] == once {
 				return true
 			}
 		}
@@ -203,32 +215,49 @@ func (s *schedT) held(dump map[int64]ginfo, once string) bool {
 	return false
 }
 
-// await waits until actor a is parked, finished or stably blocked.
-func (s *schedT) await(a *actor) {
+// settle waits until every goroutine that is running ("R": just released) or on the books as blocked ("B")
+// has reached a stable position: parked at a yield point, finished, or blocked in a Once whose body is held
+// (see held). All candidates are examined together, pass after pass: a goroutine woken by the step may have
+// to park (and be recognised as the new holder) before another one can be judged stably blocked.
+func (s *schedT) settle() {
 	deadline := time.Now().Add(20 * time.Second)
-	spins := 0
-	for {
-		select {
-		case e := <-a.ev:
-			if e.point == "" {
-				a.state, a.point = "D", e.out
-			} else {
-				a.state, a.point = "P", e.point
+	for spins := 0; ; spins++ {
+		pending := false
+		var dump map[int64]ginfo
+		for _, x := range s.actors {
+			if x.state != "R" && x.state != "B" {
+				continue
 			}
-			return
-		default:
-		}
-		spins++
-		if spins%4 == 0 {
-			dump := dumpGoroutines()
-			if w := whichOnce(dump[a.gid]); w != "" {
-				prev := a.state
-				a.state = "B" // tentatively, so that held() does not count a as the holder
-				if s.held(dump, w) {
-					return
+			select {
+			case e := <-x.ev:
+				if e.point == "" {
+					x.state, x.point = "D", e.out
+				} else {
+					x.state, x.point = "P", e.point
 				}
-				a.state = prev
+				dump = nil // the books changed: look again
+				continue
+			default:
 			}
+			if spins%4 != 3 {
+				pending = true // give it time before paying for a goroutine dump
+				continue
+			}
+			if dump == nil {
+				dump = dumpGoroutines()
+			}
+			if w := whichOnce(dump[x.gid]); w != "" {
+				prev := x.state
+				x.state = "B"
+				if s.held(dump, w) {
+					continue // stably blocked
+				}
+				x.state = prev
+			}
+			pending = true
+		}
+		if !pending {
+			return
 		}
 		runtime.Gosched()
 		if spins > 2000 {
@@ -236,7 +265,11 @@ func (s *schedT) await(a *actor) {
 		}
 		if time.Now().After(deadline) {
 			s.deadlock = true
-			a.state = "B"
+			for _, x := range s.actors {
+				if x.state == "R" {
+					x.state = "B"
+				}
+			}
 			return
 		}
 	}
@@ -250,13 +283,7 @@ func (s *schedT) release(i int) bool {
 	}
 	a.state = "R"
 	a.wake <- struct{}{}
-	s.await(a)
-	// goroutines that were blocked behind a Once the step has completed are on their way: wait for them
-	for _, b := range s.actors {
-		if b != a && b.state == "B" && !s.deadlock {
-			s.await(b)
-		}
-	}
+	s.settle()
 	return true
 }
 
